@@ -123,6 +123,10 @@ func checkC17(tier string) *Report {
 		w0.OpRecv("T(refused)", TransferSpec{"channel-0", denomUSDC, "2000000", orb, w0.FwdCCTP(0), nil}.Pkt()),
 		OpEnv("seed-stats-top"), w0.OpDeposit(w0.Orb, denomUSDC, 5),
 		OpEnv("bulk-pause-150"), OpEnv("bulk-stats-130"), // collections larger than one default query page (100 entries)
+		// identifiers the free-form INTERNAL protocol may accept that do not survive a JSON document unchanged
+		// (bytes that are not valid UTF-8 — a signed transaction can carry them: gogoproto does not validate strings)
+		w0.OpPauseCCRaw("PROTOCOL_INTERNAL", "\xff", "\xfe"), w0.OpPauseCCRaw("PROTOCOL_INTERNAL", "a\xffb"), w0.OpPauseCCRaw("PROTOCOL_INTERNAL", "\xed\xa0\x80"),
+		w0.OpPauseCC("PROTOCOL_INTERNAL", "\u2028", "é", "\ufffd"),
 	}
 	depth := 2
 	if full {
